@@ -87,7 +87,11 @@ func VerifC15Prefix() {
 // not <db>__<instance>__<25-char timestamp>__<generation>[__extra].<registered extension> is rejected.
 func VerifC15Parse() {
 	shape := zz.Choice("shape", 6)
-	tsb := zz.NondetBytes("ts", 25)
+	// a digit skeleton with arbitrary bytes at the positions the parser looks at
+	tsb := []byte("20240102-030405-000000000")
+	for _, pos := range []int{0, 8, 15, 24} {
+		tsb[pos] = zz.NondetU8("ts." + string(rune('a'+pos)))
+	}
 	ts := string(tsb)
 	var name string
 	switch shape {
@@ -96,11 +100,11 @@ func VerifC15Parse() {
 	case 1: // too few parts
 		name = "d__" + ts + "__GX.pb.gz"
 	case 2: // other extension
-		name = "d__i__" + ts + "__GX." + string(zz.NondetBytes("ext", 5))
+		name = "d__i__" + ts + "__GX.pb." + string(zz.NondetBytes("ext", 2))
 	case 3: // no dot at all
-		name = "d__i__" + string(zz.NondetBytes("short", 6))
+		name = "d__i__" + string(zz.NondetBytes("short", 3))
 	case 4: // short timestamp
-		name = "d__i__" + string(zz.NondetBytes("ts24", 24)) + "__GX.pb.gz"
+		name = "d__i__" + ts[:24] + "__GX.pb.gz"
 	default: // empty extra item and arbitrary extra
 		name = "d__i__" + ts + "__GX____" + string(zz.NondetBytes("x", 2)) + ".pb.gz"
 	}
